@@ -55,8 +55,8 @@ func racePass(c *core.Check) {
 		var out bytes.Buffer
 		cmd.Stdout, cmd.Stderr = &out, &out
 		err := cmd.Run()
-		runs += 2 * 8 * iters
-		c.Count(uint64(2 * 8 * iters))
+		runs += 3 * 8 * iters
+		c.Count(uint64(3 * 8 * iters))
 		text := out.String()
 		if strings.Contains(text, "WARNING: DATA RACE") {
 			i := strings.Index(text, "WARNING: DATA RACE")
@@ -76,7 +76,7 @@ func racePass(c *core.Check) {
 			c.Fail(core.Failure{Family: "free-race-pass", Input: fmt.Sprintf("GOMAXPROCS=%d", procs), Kind: "free-run-crash", What: err.Error() + ": " + tailStr(text)})
 		}
 	}
-	c.Extra["race_pass"] = fmt.Sprintf("free-running -race build of the same call alphabet: 8 goroutines x %d iterations x 2 registries at GOMAXPROCS 1,4,16 = %d calls (sampling companion, not exhaustive)", iters, runs)
+	c.Extra["race_pass"] = fmt.Sprintf("free-running -race build of the same call alphabet: 8 goroutines x %d iterations x 3 registries (shared option structs with non-default options, with zero options, minify.Default) at GOMAXPROCS 1,4,16 = %d calls (sampling companion, not exhaustive)", iters, runs)
 }
 
 func tailStr(s string) string {
@@ -126,6 +126,35 @@ func historyIndependence(c *core.Check) {
 	}
 }
 
+// sharedStateWrites: a call that writes to a registered option struct (any field, exported or
+// not: scratch buffers kept "to save allocations", lazily built tables, flags) creates state
+// shared between concurrent calls. This is decided deterministically, without any scheduling:
+// every call of the alphabet runs alone on a fresh shared registry, and a deep snapshot of all
+// option structs must be identical before and after it.
+func sharedStateWrites(c *core.Check) {
+	n := 0
+	for _, mk := range []struct {
+		name string
+		f    func() *calls.Shared
+	}{{"non-default options", calls.New}, {"zero options", calls.NewPlain}} {
+		for _, cl := range calls.Alphabet {
+			if strings.HasPrefix(cl.Name, "Reader") || strings.HasPrefix(cl.Name, "Writer") {
+				continue // need the goroutines of the wrappers; their minifier calls are the same as Minify's
+			}
+			sh := mk.f()
+			before := sh.Snapshot()
+			cl.Run(sh.M)
+			n++
+			c.Count(1)
+			if after := sh.Snapshot(); after != before {
+				c.Fail(core.Failure{Family: "shared-state-writes", Input: cl.Name, Config: mk.name, Kind: "option-struct-written", What: fmt.Sprintf("a single call changed a registered option struct: before %s, after %s", before, after)})
+			}
+		}
+	}
+	c.Family("shared-state-writes").Bound = fmt.Sprintf("%d calls x 2 kinds of shared option structs, deep snapshot incl. unexported fields", n/2)
+	c.AddFamily("shared-state-writes", uint64(n), uint64(n))
+}
+
 func crossProcess(c *core.Check) {
 	self, _ := os.Executable()
 	var digests []string
@@ -152,10 +181,11 @@ func crossProcess(c *core.Check) {
 
 // Run executes C13.
 func Run(c *core.Check) {
-	c.Rule = "every multiset of N=2 (thorough: also N=3) calls from an 11-call alphabet (Minify/Bytes/String/Reader/Writer/Match over all media types, documents whose embedded content re-enters the registry, shared non-default option structs) and of the 5-call alphabet on the package-level minify.Default registry, all interleavings at every synchronisation operation up to the preemption bound; oracle: each call returns its sequential result, no deadlock, no call ever finds a lock held by another call, option structs unchanged. Companions (reported separately, sampling): free-running -race pass, history independence over all ordered pairs of corpus documents, cross-process digest"
+	c.Rule = "every multiset of N=2 (thorough: also N=3) calls from an 11-call alphabet (Minify/Bytes/String/Reader/Writer/Match over all media types, documents whose embedded content re-enters the registry, shared non-default option structs) and of the 5-call alphabet on the package-level minify.Default registry, all interleavings at every synchronisation operation up to the preemption bound; oracle: each call returns its sequential result, no deadlock, no call ever finds a lock held by another call, option structs unchanged; every call alone leaves every field (also unexported ones) of the registered option structs untouched. Companions (reported separately, sampling): free-running -race pass, history independence over all ordered pairs of corpus documents, cross-process digest"
 	c.Assumptions = []string{"cooperative scheduler preempts only at hooked operations; data races in windows without synchronisation are only found by the sampling -race companion", "map iteration order is sampled by repeated processes, not enumerated"}
 	vsrun.Explore(c, "c13")
 	vsrun.Conform(c)
+	sharedStateWrites(c)
 	racePass(c)
 	historyIndependence(c)
 	crossProcess(c)
